@@ -345,3 +345,18 @@ def encoder_idempotence_rule(chk, prog, roles, rule="IDEM"):
                         "a store of the encoder into the per-line record is idempotent (the record is assembled again after padding)", expr_str(m))
     chk.floor("encoder stores into the record", n, 2)
     return n
+
+
+def restore_rule(chk, prog, roles, rule="RESTORE", fields=None):
+    """every return of the assemble entry points (and the helpers they reach) leaves the configuration fields as at entry"""
+    netdirty, details = config_discipline(prog, roles)
+    n = 0
+    for fn in sorted(netdirty):
+        if fn in roles.entries or fn == roles.driver or fn in roles.emitters or fn == roles.room_check:
+            for r, s in details[fn]:
+                n += 1
+                d = s["dirty"] if fields is None else s["dirty"] & set(fields)
+                chk.require(not d, rule, "%s/%s@%s" % (rule, fn, loc_str(r)), loc_str(r),
+                            "every return of %s leaves the configuration fields (%s) as they were at entry" % (fn, ", ".join(fields or INSTANCE_FIELDS_CONFIG)),
+                            "fields still modified on this path: %s" % sorted(d))
+    return netdirty, n
